@@ -63,6 +63,10 @@ for patch in "${list[@]}"; do
     if [ $code -eq 1 ]; then detected="$detected $id($(echo "$out" | grep -o 'class=[^ ]*' | head -1))"; fi
     if [ $code -eq 2 ]; then echo "MUTANT $name: harness error on $id: $(echo "$out" | tail -2)"; fi
   done
-  if [ -n "$detected" ]; then echo "MUTANT $name: detected by$detected"; else echo "MUTANT $name: NOT DETECTED by [$checks]"; fail=1; fi
+  miss=""
+  if [[ "$patch" == */patch.diff ]]; then miss=$(python3 -c "import json,sys; print(json.load(open(sys.argv[1])).get('known_miss',''))" "$(dirname "$patch")/meta.json"); fi
+  if [ -n "$detected" ]; then echo "MUTANT $name: detected by$detected"
+  elif [ -n "$miss" ]; then echo "MUTANT $name: not detected by [$checks] (recorded limitation)"
+  else echo "MUTANT $name: NOT DETECTED by [$checks]"; fail=1; fi
 done
 exit $fail
